@@ -214,8 +214,8 @@ CLAIMED["C03"] = {
     "text": ("Gives every one of the ~146 obligation sites of the library's MIR (bounds checks, add/sub/shift overflow asserts, preconditions of "
              "get_unchecked*, range indexing, copy_within, copy_nonoverlapping, split_at_mut, unwrap_unchecked, reachable panics) a verdict for all "
              "inputs and all buffer sizes: discharged by entailment from the guards on the path, std/helper contracts (the helpers' own contracts are "
-             "proved from their MIR) and three struct invariants that are themselves proved inductively; or assumed (14 sites resting on buffer-content "
-             "invariants: NUL termination of history entries, the tokenizer's insert <= cursor_pos, one debug assertion delegated to C02, two sites "
+             "proved from their MIR) and three struct invariants that are themselves proved inductively; or assumed (6 sites resting on buffer-content "
+             "invariants: NUL termination of history entries, one debug assertion delegated to C02, two sites "
              "unreachable because text_range is only instantiated with RangeFrom - that condition is re-checked on every run) - printed, never counted "
              "as proved; anything else - including a site no analysed path reaches - is a violation. The tokenizer's output-cursor sites "
              "are proved by a slack lemma on its extracted transducer (C07). Encapsulation witnesses (compile_fail doc tests with compiling "
